@@ -88,7 +88,7 @@ class Contract:
 
 class LoopSpec:
     def __init__(self, qualname, ordinal, invariants=(), decreases=None, modifies=(),
-                 ghost=None, hints=(), havoc_locals=None, step=(), step_ret=(), local_kinds=None, post_hints=()):
+                 ghost=None, hints=(), havoc_locals=None, step=(), step_ret=(), local_kinds=None, post_hints=(), step_brk=()):
         self.qualname = qualname
         self.ordinal = ordinal
         self.invariants = _clauses(invariants, f"inv{ordinal}_")
@@ -104,6 +104,7 @@ class LoopSpec:
         # prev(e) is e evaluated at the start of that iteration
         self.step = _clauses(step, f"step{ordinal}_")
         self.step_ret = _clauses(step_ret, f"stepret{ordinal}_")     # only at `return` inside the loop
+        self.step_brk = _clauses(step_brk, f"stepbrk{ordinal}_")     # only at `break`
 
 
 class Registry:
